@@ -214,7 +214,7 @@ def run(ck):
         return sorted(cands, key=lambda x: x["attempts"])[0]
 
     # 2. theorems on the regenerated record
-    res = ck.lean(PROPS, PROPS)
+    res = c48lib.lean_checked(ck, PROPS)
     ck.lean_violations(res, search)
     if not ck.quick:
         for m, msg in ck.leanchecker(PROPS):
